@@ -33,11 +33,13 @@ type btr struct {
 	tabVar  string              // value variable of `for _, ts := range vt.tabStop`
 	tabIdx  string              // index variable of `for i := len(vt.tabStop) - 1; i >= 0; i -= 1`
 	penVar  string              // local holding a copy of the pen (`pen := vt.cursor.Style`)
+	paramVar string             // value variable of `for _, param := range params`
+	stateVar string             // local of type cursorState (decsc/decrc)
 	unknown int
 }
 
 var knownCallees = map[string]bool{"cuu": true, "cud": true, "ind": true, "nel": true, "ri": true, "lf": true,
-	"cht": true, "scrollUp": true, "scrollDown": true}
+	"cht": true, "scrollUp": true, "scrollDown": true, "decsc": true, "decrc": true, "ed": true, "setDefaultTabStops": true}
 
 var places = map[string]string{
 	"vt.cursor.row": ".curRow", "vt.cursor.col": ".curCol",
@@ -140,6 +142,9 @@ func (t *btr) expr(e ast.Expr) (string, bool) {
 	case *ast.IndexExpr:
 		if t.tabIdx != "" && t.src(x) == "vt.tabStop["+t.tabIdx+"]" {
 			return ".tab", true
+		}
+		if t.paramVar != "" && t.src(x) == t.paramVar+"[0]" {
+			return ".param0", true
 		}
 		// pm[k][0]
 		if in, ok := x.X.(*ast.IndexExpr); ok && t.pmName != "" && t.src(in.X) == t.pmName {
@@ -355,6 +360,9 @@ func (t *btr) forStmt(s *ast.ForStmt) string {
 	if r, ok := t.tabDown(s); ok {
 		return r
 	}
+	if r, ok := t.tabsRange(s); ok {
+		return r
+	}
 	init, ok := s.Init.(*ast.AssignStmt)
 	if !ok || init.Tok != token.DEFINE || len(init.Lhs) != 1 || len(init.Rhs) != 1 || s.Cond == nil || s.Post == nil {
 		return t.unk(s)
@@ -489,8 +497,49 @@ func (t *btr) tabDown(s *ast.ForStmt) (string, bool) {
 	return "(.forTabsDown\n " + body + ")", true
 }
 
+// for _, param := range params (the [][]int parameter): the body runs at function level
+func (t *btr) paramRange(s *ast.RangeStmt) (string, bool) {
+	if s.Tok != token.DEFINE || s.Key == nil || s.Value == nil || t.pmName == "" || t.src(s.X) != t.pmName || t.src(s.Key) != "_" {
+		return "", false
+	}
+	v, ok := s.Value.(*ast.Ident)
+	if !ok || t.paramVar != "" || t.tabVar != "" || t.tabIdx != "" || len(t.loops) != 0 || v.Name == "_" {
+		return "", false
+	}
+	if _, shadow := t.locals[v.Name]; shadow {
+		return "", false
+	}
+	// the loop variable is only read, as param[0]
+	uses, asIndex := 0, 0
+	ast.Inspect(s.Body, func(n ast.Node) bool {
+		switch x := n.(type) {
+		case *ast.Ident:
+			if x.Name == v.Name {
+				uses++
+			}
+		case *ast.IndexExpr:
+			if t.src(x) == v.Name+"[0]" {
+				asIndex++
+			}
+		}
+		return true
+	})
+	if uses != asIndex {
+		return "", false
+	}
+	t.paramVar = v.Name
+	t.brkable = append(t.brkable, "for")
+	body := t.block(s.Body.List)
+	t.brkable = t.brkable[:len(t.brkable)-1]
+	t.paramVar = ""
+	return "(.forParams\n " + body + ")", true
+}
+
 func (t *btr) rangeStmt(s *ast.RangeStmt) string {
 	if r, ok := t.tabRange(s); ok {
+		return r
+	}
+	if r, ok := t.paramRange(s); ok {
 		return r
 	}
 	// for v := range vt.activeScreen
@@ -551,10 +600,16 @@ func (t *btr) switchStmt(s *ast.SwitchStmt) string {
 		return t.unk(s)
 	}
 	tag := ""
+	boolTag := ""
 	if s.Tag != nil {
 		x, ok := t.expr(s.Tag)
 		if !ok {
-			return t.unk(s)
+			// switch <condition> { case true: … case false: … }
+			c, okc := t.cond(s.Tag)
+			if !okc {
+				return t.unk(s)
+			}
+			boolTag = c
 		}
 		tag = x
 	}
@@ -581,7 +636,16 @@ func (t *btr) switchStmt(s *ast.SwitchStmt) string {
 		}
 		var cs []string
 		for _, l := range cc.List {
-			if tag != "" {
+			if boolTag != "" {
+				switch t.src(l) {
+				case "true":
+					cs = append(cs, boolTag)
+				case "false":
+					cs = append(cs, "(.not "+boolTag+")")
+				default:
+					return t.unk(s)
+				}
+			} else if tag != "" {
 				x, ok := t.expr(l)
 				if !ok {
 					return t.unk(s)
@@ -688,6 +752,60 @@ func (t *btr) assign(s *ast.AssignStmt) string {
 			}
 		}
 	}
+	// vt.mode.<field> = true / false
+	if s.Tok == token.ASSIGN && len(t.loops) == 0 {
+		if l := t.src(lhs); strings.HasPrefix(l, "vt.mode.") && modeFieldNames[l[len("vt.mode."):]] {
+			switch t.src(rhs) {
+			case "true":
+				return "(.setMode ." + l[len("vt.mode."):] + " true)"
+			case "false":
+				return "(.setMode ." + l[len("vt.mode."):] + " false)"
+			}
+		}
+	}
+	// the saved-cursor record of decsc() / decrc(), and the whole-struct resets of ris()
+	if len(t.loops) == 0 && t.tabVar == "" && t.tabIdx == "" {
+		l, r := t.src(lhs), t.src(rhs)
+		if id, ok := lhs.(*ast.Ident); ok && s.Tok == token.DEFINE && t.stateVar == "" && r == stateCaptureSrc {
+			if _, isLocal := t.locals[id.Name]; !isLocal && id.Name != "_" {
+				t.stateVar = id.Name
+				return "(.prim .stateCapture)"
+			}
+		}
+		if s.Tok == token.ASSIGN && t.stateVar != "" {
+			st := t.stateVar
+			switch {
+			case l == "vt.altState" && r == st:
+				return "(.prim .stateStoreAlt)"
+			case l == "vt.primaryState" && r == st:
+				return "(.prim .stateStorePrimary)"
+			case l == st && r == "vt.altState":
+				return "(.prim .stateLoadAlt)"
+			case l == st && r == "vt.primaryState":
+				return "(.prim .stateLoadPrimary)"
+			case l == "vt.cursor" && r == st+".cursor":
+				return "(.prim .cursorFromState)"
+			case l == "vt.charsets" && r == strings.ReplaceAll(charsetsFromStateSrc, "STATE", st):
+				return "(.prim .charsetsFromState)"
+			case l == "vt.mode.decawm" && r == st+".decawm":
+				return "(.prim .decawmFromState)"
+			case l == "vt.mode.decom" && r == st+".decom":
+				return "(.prim .decomFromState)"
+			}
+		}
+		if s.Tok == token.ASSIGN {
+			switch {
+			case l == "vt.charsets" && r == charsetsResetSrc:
+				return "(.prim .charsetsReset)"
+			case l == "vt.mode" && r == modeResetSrc:
+				return "(.prim .modeReset)"
+			case l == "vt.activeScreen" && r == "vt.altScreen":
+				return "(.prim .activeAlt)"
+			case l == "vt.activeScreen" && r == "vt.primaryScreen":
+				return "(.prim .activePrimary)"
+			}
+		}
+	}
 	// pen := vt.cursor.Style ... vt.cursor.Style = pen (function level only; the local is never assigned again:
 	// any other statement that mentions it is outside the language)
 	if len(t.loops) == 0 && t.tabVar == "" && t.tabIdx == "" {
@@ -788,9 +906,76 @@ func (t *btr) assign(s *ast.AssignStmt) string {
 	return t.unk(s)
 }
 
+const (
+	stateCaptureSrc      = "cursorState{ cursor: vt.cursor, decawm: vt.mode.decawm, decom: vt.mode.decom, charsets: charsets{ selected: vt.charsets.selected, saved: vt.charsets.saved, designations: map[charsetDesignator]charset{ g0: vt.charsets.designations[g0], g1: vt.charsets.designations[g1], g2: vt.charsets.designations[g2], g3: vt.charsets.designations[g3], }, }, }"
+	charsetsFromStateSrc = "charsets{ selected: STATE.charsets.selected, saved: STATE.charsets.saved, designations: map[charsetDesignator]charset{ g0: STATE.charsets.designations[g0], g1: STATE.charsets.designations[g1], g2: STATE.charsets.designations[g2], g3: STATE.charsets.designations[g3], }, }"
+	charsetsResetSrc     = "charsets{ selected: 0, saved: 0, designations: map[charsetDesignator]charset{ g0: ascii, g1: ascii, g2: ascii, g3: ascii, }, }"
+	modeResetSrc         = "mode{ decawm: true, dectcem: true, }"
+)
+
+// constant int expression (literals, + - *, parentheses)
+func constInt(e ast.Expr) (int64, bool) {
+	switch x := e.(type) {
+	case *ast.ParenExpr:
+		return constInt(x.X)
+	case *ast.BasicLit:
+		if x.Kind == token.INT {
+			v, err := strconv.ParseInt(x.Value, 0, 64)
+			return v, err == nil
+		}
+	case *ast.BinaryExpr:
+		a, ok1 := constInt(x.X)
+		b, ok2 := constInt(x.Y)
+		if ok1 && ok2 {
+			switch x.Op {
+			case token.ADD:
+				return a + b, true
+			case token.SUB:
+				return a - b, true
+			case token.MUL:
+				return a * b, true
+			}
+		}
+	}
+	return 0, false
+}
+
+// for i := A; i < B; i += C { vt.tabStop = append(vt.tabStop, column(i)) } with constant A, B, C
+func (t *btr) tabsRange(s *ast.ForStmt) (string, bool) {
+	init, ok := s.Init.(*ast.AssignStmt)
+	if !ok || init.Tok != token.DEFINE || len(init.Lhs) != 1 || len(init.Rhs) != 1 || len(t.loops) != 0 || s.Cond == nil || s.Post == nil {
+		return "", false
+	}
+	v, ok := init.Lhs[0].(*ast.Ident)
+	if !ok {
+		return "", false
+	}
+	if _, shadow := t.locals[v.Name]; shadow {
+		return "", false
+	}
+	a, ok1 := constInt(init.Rhs[0])
+	c, okc := unparen(s.Cond).(*ast.BinaryExpr)
+	if !ok1 || !okc || c.Op != token.LSS || t.src(c.X) != v.Name {
+		return "", false
+	}
+	b, ok2 := constInt(c.Y)
+	p, okp := s.Post.(*ast.AssignStmt)
+	if !ok2 || !okp || p.Tok != token.ADD_ASSIGN || len(p.Lhs) != 1 || len(p.Rhs) != 1 || t.src(p.Lhs[0]) != v.Name {
+		return "", false
+	}
+	st, ok3 := constInt(p.Rhs[0])
+	if !ok3 || a < 0 || b < 0 || st <= 0 || len(s.Body.List) != 1 {
+		return "", false
+	}
+	if t.src(s.Body.List[0]) != "vt.tabStop = append(vt.tabStop, column("+v.Name+"))" {
+		return "", false
+	}
+	return fmt.Sprintf("(.tabsAppendRange %d %d %d)", a, b, st), true
+}
+
 // statements of resize() recognised as a whole (by their whitespace-normalised source text)
 func (t *btr) resizeStmt(s ast.Stmt) (string, bool) {
-	if t.fnName != "resize" || len(t.loops) != 0 {
+	if (t.fnName != "resize" && t.fnName != "ris") || len(t.loops) != 0 {
 		return "", false
 	}
 	w, okw := t.locals["w"]
@@ -853,6 +1038,12 @@ func (t *btr) stmt(s ast.Stmt) string {
 		for _, sp := range gd.Specs {
 			vs := sp.(*ast.ValueSpec)
 			ty := t.src(vs.Type)
+			if ty == "cursorState" && len(vs.Values) == 0 && len(vs.Names) == 1 && t.stateVar == "" && len(t.loops) == 0 && len(gd.Specs) == 1 {
+				if _, isLocal := t.locals[vs.Names[0].Name]; !isLocal && vs.Names[0].Name != "_" {
+					t.stateVar = vs.Names[0].Name
+					return "(.prim .stateZero)"
+				}
+			}
 			if len(vs.Values) != 0 || (ty != "row" && ty != "column" && ty != "int" && ty != "bool") {
 				return t.unk(s)
 			}
@@ -908,6 +1099,20 @@ func (t *btr) stmt(s ast.Stmt) string {
 			return t.unk(s)
 		}
 		fun := t.src(call.Fun)
+		// fmt.Fprintf(vt.pty, …): a reply to the child, no state change (arguments must be in the language)
+		if fun == "fmt.Fprintf" && len(call.Args) >= 2 && t.src(call.Args[0]) == "vt.pty" && len(t.loops) == 0 {
+			if _, isStr := call.Args[1].(*ast.BasicLit); isStr {
+				good := true
+				for _, a := range call.Args[2:] {
+					if _, ok := t.expr(a); !ok {
+						good = false
+					}
+				}
+				if good {
+					return ".reply"
+				}
+			}
+		}
 		// copy(vt.activeScreen[d], vt.activeScreen[s])
 		if fun == "copy" && len(call.Args) == 2 {
 			d, ok1 := t.rowPlace(call.Args[0])
@@ -1020,6 +1225,8 @@ func genBodies(c *ex.Ctx) {
 		{"esc.go", "ind"}, {"esc.go", "nel"}, {"esc.go", "ri"}, {"esc.go", "hts"},
 		{"c0.go", "bs"}, {"c0.go", "ht"}, {"c0.go", "lf"}, {"c0.go", "vt"}, {"c0.go", "ff"}, {"c0.go", "cr"},
 		{"term.go", "scrollUp"}, {"term.go", "scrollDown"}, {"term.go", "print"}, {"term.go", "resize"},
+		{"esc.go", "decsc"}, {"esc.go", "decrc"}, {"esc.go", "ris"}, {"esc.go", "setDefaultTabStops"},
+		{"mode.go", "sm"}, {"mode.go", "rm"}, {"mode.go", "decset"}, {"mode.go", "decrst"}, {"mode.go", "decrqm"},
 	}
 	files := map[string]*ast.File{}
 	var names []string
